@@ -724,6 +724,12 @@ pub fn setup_session<C: Suite>(rng: &mut TestRng, p: &Params) -> Result<(Keys<C>
     Ok((keys, signers, sess))
 }
 
+/// Equality of two values through their ENCODINGS.  The harness uses it (instead of the library's `PartialEq`) where it decides
+/// whether a generated variant differs from the original: a defect in a type's `PartialEq` must not make the harness skip the case.
+pub fn same_encoding<E>(a: Result<Vec<u8>, E>, b: Result<Vec<u8>, E>) -> bool {
+    matches!((a, b), (Ok(x), Ok(y)) if x == y)
+}
+
 pub fn culprits_hex<C: Suite>(e: &FErr<C>) -> Vec<String> {
     e.culprits().iter().map(id_hex::<C>).collect()
 }
